@@ -6,6 +6,8 @@ elemental entropy sum (harness's own RDKit parse and pmutt table lookup).
 """
 import math
 
+import numpy as np
+
 from vmon.core.obs import observe, is_plain_number, close
 from vmon.core import libs
 from vmon.gen import molecules
@@ -106,6 +108,34 @@ def check_units(ctx, case, obj, T, is_estimate, s_el):
             done = False
             continue
         dims[key] = (H, G, S, Cp)
+        # the same calls with the arguments spelled differently: keyword
+        # units, an integral / numpy-typed temperature
+        alts = [('units= keyword', T, {'units': eu}, {'units': key})]
+        if float(T) == int(T):
+            alts.append(('int T', int(T), None, None))
+        alts.append(('numpy T', np.float64(T), None, None))
+        if (sum(map(ord, key)) + int(T * 10)) % 4 != 0:
+            alts = []           # a rotating quarter of the unit keys
+        for lab, TT, kwe, kwk in alts:
+            if kwe is None:
+                got4 = [_get(ctx, case, 'get_H', obj.get_H, TT, eu)[0],
+                        _get(ctx, case, 'get_G', obj.get_G, TT, eu)[0],
+                        _get(ctx, case, 'get_S', obj.get_S, TT, key)[0],
+                        _get(ctx, case, 'get_Cp', obj.get_Cp, TT, key)[0]]
+            else:
+                got4 = [_get(ctx, case, 'get_H', obj.get_H, TT, **kwe)[0],
+                        _get(ctx, case, 'get_G', obj.get_G, TT, **kwe)[0],
+                        _get(ctx, case, 'get_S', obj.get_S, TT, **kwk)[0],
+                        _get(ctx, case, 'get_Cp', obj.get_Cp, TT, **kwk)[0]]
+            if None in got4 or any(
+                    not close(a_, b_, rel=1e-12, abs_=0.0,
+                              scale=abs(a_) + abs(b_))
+                    for a_, b_ in zip(got4, [H, G, S, Cp])):
+                ctx.violation('dimensional accessors depend on how the '
+                              'arguments are spelled (%s)' % lab, case,
+                              {'T': T, 'unit': key, 'plain': [H, G, S, Cp],
+                               'alternative': got4})
+                done = False
         checks = [
             ('H(T,u) != HoRT*T*R(u)', H, nd['get_HoRT'] * T * Rv),
             ('S(T,u) != SoR*R(u)', S, nd['get_SoR'] * Rv),
